@@ -315,19 +315,54 @@ def _empty_format(cx, repo):
     ok = len(fin) == 1 and is_name(fin[0].value, "columns") and fin[0] is rs_set.body[-1]
     cx.ob("R13d", fin[0] if fin else rs_set, ok, "the new column list is installed" if ok else "self.columns is not set from the computed list at the end")
     # limits
-    a = [s for s in walk_local(tf_set) if isinstance(s, ast.Assign) and any(is_self_attr(t, ("limit_flines", "limit_llines")) for t in s.targets)]
-    ok = len(a) == 2 and {norm(s) for s in a} == {"self.limit_flines = other.limit_flines", "self.limit_llines = other.limit_llines"}
+    # (single assignments or one tuple assignment; the test may go through a local alias of parsed_fmt.vis_lines)
+    a, copied = [], set()
+    for s_ in walk_local(tf_set):
+        if not isinstance(s_, ast.Assign):
+            continue
+        for t in s_.targets:
+            if is_self_attr(t, ("limit_flines", "limit_llines")):
+                a.append(s_)
+                copied.add((norm(t), norm(s_.value)))
+            elif isinstance(t, (ast.Tuple, ast.List)) and isinstance(s_.value, (ast.Tuple, ast.List)) and len(t.elts) == len(s_.value.elts):
+                for x_, y_ in zip(t.elts, s_.value.elts):
+                    if is_self_attr(x_, ("limit_flines", "limit_llines")):
+                        a.append(s_)
+                        copied.add((norm(x_), norm(y_)))
+    ok = copied == {("self.limit_flines", "other.limit_flines"), ("self.limit_llines", "other.limit_llines")}
     if ok:
-        from sa.guards import canon_facts
-        fs = canon_facts(a[0])
+        from sa.guards import canon_fact, facts as _facts
+        fs = {canon_fact(e_, p_) for e_, p_ in _facts(a[0], expand_tests=True)}
         ok = ("is", "parsed_fmt.vis_lines", "None", True) in fs and ("is", "other", "None", False) in fs
     cx.ob("R13d", a[0] if a else tf_set, ok, "absent limits section: the current limits are kept" if ok else "absent limits section does not copy both current limits")
-    sl = [c for c in walk_local(tf_set) if isinstance(c, ast.Call) and call_name(c) == "set_limits" and norm(c.args[0]) == "parsed_fmt.vis_lines"]
-    from sa.guards import canon_facts as _cf
-    ok = len(sl) == 1 and ("is", "parsed_fmt.vis_lines", "None", False) in _cf(sl[0])
+    from sa.guards import xnorm_at as _xn, canon_fact as _cfa, facts as _fa
+    # the limits handed over: parsed_fmt.vis_lines itself (set_limits ignores None), possibly through a local alias or as
+    # `<limits> or <default>` (a limits pair is a non-empty tuple: truthy whenever given)
+    def _given(c_):
+        a_ = c_.args[0]
+        if isinstance(a_, ast.BoolOp) and isinstance(a_.op, ast.Or):
+            a_ = a_.values[0]
+        return _xn(a_, c_) == "parsed_fmt.vis_lines"
+    sl = [c for c in walk_local(tf_set) if isinstance(c, ast.Call) and call_name(c) == "set_limits" and c.args and _given(c)]
+    ok = len(sl) == 1
+    if ok:
+        fs_ = {_cfa(e_, p_) for e_, p_ in _fa(sl[0], expand_tests=True)}
+        # reached whenever a limits section is given: not under a condition that excludes it
+        ok = ("is", "parsed_fmt.vis_lines", "None", True) not in fs_
     cx.ob("R13d", sl[0] if sl else tf_set, ok, "given limits are applied" if ok else "given limits are not applied")
     c = [x for x in walk_local(tf_set) if isinstance(x, ast.Call) and call_name(x) == "_set_parsed_fmt"]
-    ok = len(c) == 1 and [norm(x) for x in c[0].args] == ["parsed_fmt.cols_parsed_fmt", "other.repr_structure"]
+    # second argument: other.repr_structure (also guarded: `other.repr_structure if other is not None else None`)
+    def _ref_struct(e_):
+        if isinstance(e_, ast.IfExp):
+            from sa.guards import canon_test
+            t_ = canon_test(e_.test)
+            if t_ == {("is", "other", "None", False)}:
+                return norm(e_.body) if const(e_.orelse) and e_.orelse.value is None else None
+            if t_ == {("is", "other", "None", True)}:
+                return norm(e_.orelse) if const(e_.body) and e_.body.value is None else None
+            return None
+        return norm(e_)
+    ok = len(c) == 1 and len(c[0].args) == 2 and norm(c[0].args[0]) == "parsed_fmt.cols_parsed_fmt" and _ref_struct(c[0].args[1]) == "other.repr_structure"
     cx.ob("R13d", c[0] if c else tf_set, ok, "columns section is applied against the current columns" if ok else "column section is not applied with other.repr_structure")
     # set_fmt: clone, apply with the current format as `other`, install
     body = [norm(s) for s in set_fmt.body]
@@ -360,15 +395,25 @@ def _skipped_flag(cx, repo):
         for st in ast.walk(m.tree):
             if not isinstance(st, ast.Assign):
                 continue
+            pairs_ = []
             for t in st.targets:
-                if isinstance(t, ast.Attribute) and t.attr == "any_lines_skipped":
+                if isinstance(t, ast.Attribute):
+                    pairs_.append((t, st.value))
+                elif isinstance(t, (ast.Tuple, ast.List)):
+                    # a, b, c = (x, y, z): position-wise; anything else on the right: the element is not a constant None
+                    if isinstance(st.value, (ast.Tuple, ast.List)) and len(st.value.elts) == len(t.elts):
+                        pairs_ += [(a_, b_) for a_, b_ in zip(t.elts, st.value.elts) if isinstance(a_, ast.Attribute)]
+                    else:
+                        pairs_ += [(a_, st.value) for a_ in t.elts if isinstance(a_, ast.Attribute)]
+            for t, val_ in pairs_:
+                if t.attr == "any_lines_skipped":
                     n += 1
                     f = enclosing_func(st)
                     if f is gen:
-                        ok = norm(st.value) in ("n_skipped > 0", "bool(n_skipped)", "n_skipped != 0")
-                        cx.ob("R13e", st, ok, "set from the number of records actually skipped in this rendering" if ok else f"flag computed as {norm(st.value)}")
+                        ok = norm(val_) in ("n_skipped > 0", "bool(n_skipped)", "n_skipped != 0", "0 < n_skipped", "0 != n_skipped")
+                        cx.ob("R13e", st, ok, "set from the number of records actually skipped in this rendering" if ok else f"flag computed as {norm(val_)}")
                     else:
-                        ok = const(st.value) and st.value.value is None
+                        ok = const(val_) and val_.value is None
                         cx.ob("R13e", st, ok, "elsewhere the flag is (re)set to 'unknown'" if ok else
                               f"`{norm(st)}` in {getattr(f, '_qual', '?')}: a flag describing another rendering / other limits is carried over; "
                               f"after a re-format the serialised fmt can silently drop the record limits")
